@@ -1,5 +1,6 @@
 mod c0103;
 mod c05;
+mod c06;
 mod c18;
 mod common;
 mod extract;
@@ -41,6 +42,7 @@ fn main() {
                 "C02" => c0103::run(&ctx, "C02"),
                 "C03" => c0103::run(&ctx, "C03"),
                 "C05" => c05::run(&ctx),
+                "C06" => c06::run(&ctx),
                 "C04" => gramsweep::run_c04(&ctx),
                 "C11" => gramsweep::run_c11(&ctx),
                 "C17" => gramsweep::run_c17(&ctx),
